@@ -117,7 +117,7 @@ func drawInputs(t *rapid.T, s *spec.Spec, maxAll, nSent int) [][]int {
 	seen := map[string]bool{}
 	var out [][]int
 	add := func(w []int) {
-		if len(w) > 60 {
+		if len(w) > 700 {
 			return
 		}
 		k := fmt.Sprint(w)
@@ -128,6 +128,16 @@ func drawInputs(t *rapid.T, s *spec.Spec, maxAll, nSent int) [][]int {
 	}
 	k := ref.LenFor(nt, maxAll)
 	ref.AllStrings(nt, k, func(w []int) bool { add(w); return true })
+	// one long sentence (deep stacks: the generated parser's stack must grow)
+	if rapid.IntRange(0, 2).Draw(t, "longsentence") == 0 {
+		ch := make([]int, rapid.IntRange(100, 400).Draw(t, "longchoices"))
+		for j := range ch {
+			ch[j] = rapid.IntRange(0, 7).Draw(t, "lchoice")
+		}
+		if w := g.Derive(ch, 600); w != nil {
+			add(w)
+		}
+	}
 	for i := 0; i < nSent; i++ {
 		nch := rapid.IntRange(0, 30).Draw(t, "nchoices")
 		ch := make([]int, nch)
